@@ -10,5 +10,6 @@ CONSTANTS
   Dev_UnevaluatedOperandFolded = TRUE
   Dev_NoDivisionGuard = TRUE
   Dev_CondSameTypeNoPromotion = TRUE
+  Dev_BareAddressMinusRejected = TRUE
 INVARIANTS Inv_Judge
 CHECK_DEADLOCK FALSE
